@@ -903,6 +903,229 @@ theorem add_exact (x y : List Nat) (hx : Limbs x) (hy : Limbs y) (hlen : y.lengt
     rw [h1] at hv; omega
 
 
+/-! ### mpn_addmul_1 (kernel model) and mpn_redc_1 -/
+
+/-- one limb of addmul_1, `p = u·vl` -/
+theorem addmul_limb (r p cl : Nat) (hr : r < B) (hp : p ≤ (B - 1) * (B - 1)) (hc : cl < B) :
+    (r + (p % B + cl) % B) % B +
+      B * (((boolToNat (decide ((p % B + cl) % B < cl)) + p / B) % B +
+              boolToNat (decide ((r + (p % B + cl) % B) % B < r))) % B) = r + p + cl ∧
+    (((boolToNat (decide ((p % B + cl) % B < cl)) + p / B) % B +
+              boolToNat (decide ((r + (p % B + cl) % B) % B < r))) % B) < B ∧
+    (r + (p % B + cl) % B) % B < B := by
+  simp only [boolToNat, B_eq] at *
+  split <;> split <;> simp only [decide_eq_true_eq] at * <;> omega
+
+theorem addmul1C_cons (r u vl cl : Nat) (rs us : List Nat) :
+    addmul1C (r :: rs) (u :: us) vl cl =
+      ((r + ((u * vl) % B + cl) % B) % B ::
+        (addmul1C rs us vl (((boolToNat (decide (((u * vl) % B + cl) % B < cl)) + (u * vl) / B) % B +
+              boolToNat (decide ((r + ((u * vl) % B + cl) % B) % B < r))) % B)).1,
+       (addmul1C rs us vl (((boolToNat (decide (((u * vl) % B + cl) % B < cl)) + (u * vl) / B) % B +
+              boolToNat (decide ((r + ((u * vl) % B + cl) % B) % B < r))) % B)).2) := by
+  rw [addmul1C]; rfl
+
+theorem addmul1C_val (r : List Nat) : ∀ (u : List Nat) (vl cl : Nat), Limbs r → Limbs u → r.length = u.length →
+    vl < B → cl < B →
+    val (addmul1C r u vl cl).1 + B ^ r.length * (addmul1C r u vl cl).2 = val r + val u * vl + cl ∧
+    (addmul1C r u vl cl).2 < B ∧ Limbs (addmul1C r u vl cl).1 ∧ (addmul1C r u vl cl).1.length = r.length := by
+  induction r with
+  | nil =>
+    intro u vl cl _ _ hl _ hc
+    cases u with
+    | nil => simp [addmul1C, hc, Limbs_nil]
+    | cons _ _ => simp at hl
+  | cons r rs ih =>
+    intro u vl cl hr hu hl hv hc
+    cases u with
+    | nil => simp at hl
+    | cons u us =>
+      have ⟨hr0, hrs⟩ := Limbs_cons.mp hr
+      have ⟨hu0, hus⟩ := Limbs_cons.mp hu
+      have hp : u * vl ≤ (B - 1) * (B - 1) := Nat.mul_le_mul (by omega) (by omega)
+      have ⟨e, c1, r1⟩ := addmul_limb r (u * vl) cl hr0 hp hc
+      obtain ⟨ihv, ihc, ihl, ihn⟩ := ih us vl _ hrs hus (by simpa using hl) hv c1
+      rw [addmul1C_cons]
+      simp only [val_cons, List.length_cons, pow_succ]
+      refine ⟨?_, ihc, Limbs_cons.mpr ⟨r1, ihl⟩, by rw [ihn]⟩
+      generalize (((boolToNat (decide (((u * vl) % B + cl) % B < cl)) + (u * vl) / B) % B +
+              boolToNat (decide ((r + ((u * vl) % B + cl) % B) % B < r))) % B) = c at *
+      generalize (r + ((u * vl) % B + cl) % B) % B = lo at *
+      generalize addmul1C rs us vl c = res at *
+      have h2 : B * (val res.1 + B ^ rs.length * res.2) = B * (val rs + val us * vl + c) := by rw [ihv]
+      linarith [h2, e]
+
+theorem addmul_1_val (r u : List Nat) (vl : Nat) (hr : Limbs r) (hu : Limbs u) (hl : r.length = u.length) (hv : vl < B) :
+    val (addmul_1 r u vl).1 + B ^ r.length * (addmul_1 r u vl).2 = val r + val u * vl ∧
+    (addmul_1 r u vl).2 < B ∧ Limbs (addmul_1 r u vl).1 ∧ (addmul_1 r u vl).1.length = r.length := by
+  have := addmul1C_val r u vl 0 hr hu hl hv B_pos
+  simpa [addmul_1] using this
+
+
+/-- the quotient limb `q = t0·invm mod B` clears the low limb when `invm·m0 ≡ −1 (mod B)`. -/
+theorem redc_low_zero (t0 m0 invm : Nat) (hinv : (invm * m0) % B = B - 1) :
+    (t0 + m0 * ((t0 * invm) % B)) % B = 0 := by
+  have h1 : (1 + invm * m0) % B = 0 := by
+    rw [Nat.add_mod, hinv]; simp [B_eq]
+  have h2 : (t0 + m0 * ((t0 * invm) % B)) % B = (t0 * (1 + invm * m0)) % B := by
+    have : t0 * (1 + invm * m0) = t0 + m0 * (t0 * invm) := by ring
+    rw [this, Nat.add_mod, Nat.mul_mod m0 ((t0 * invm) % B), Nat.mod_mod, ← Nat.mul_mod, ← Nat.add_mod]
+  rw [h2, Nat.mul_mod, h1]; simp
+
+theorem headD_eq_val_mod (l : List Nat) (hl : Limbs l) : l.headD 0 = val l % B := by
+  cases l with
+  | nil => simp
+  | cons x xs =>
+    have := (Limbs_cons.mp hl).1
+    simp only [List.headD_cons, val_cons]
+    rw [Nat.add_mul_mod_self_left, Nat.mod_eq_of_lt this]
+
+theorem val_tail (l : List Nat) : val l = l.headD 0 + B * val l.tail := by
+  cases l <;> simp
+
+/-- The loop of mpn_redc_1: after `k` rounds from a window `t` of `n + k` limbs,
+    `val t + Q·m = B^k · val t' + B^n · val (new carries)` with `Q < B^k` — the low `k` limbs have been
+    cleared and each round's carry-out has been parked in the limb left behind. -/
+theorem redc1Loop_inv (mp : List Nat) (invm : Nat) (hmp : Limbs mp) (hn : 1 ≤ mp.length)
+    (hinv : (invm * mp.headD 0) % B = B - 1) :
+    ∀ (k : Nat) (cs t : List Nat), Limbs t → t.length = mp.length + k →
+    ∃ Q cn t', redc1Loop mp mp.length invm k cs t = (cs ++ cn, t') ∧ Q < B ^ k ∧ Limbs cn ∧ cn.length = k ∧
+      Limbs t' ∧ t'.length = mp.length ∧
+      val t + Q * val mp = B ^ k * val t' + B ^ mp.length * val cn := by
+  intro k
+  induction k with
+  | zero =>
+    intro cs t ht hlen
+    exact ⟨0, [], t, by simp [redc1Loop], by simp, Limbs_nil, rfl, ht, by simpa using hlen, by simp⟩
+  | succ k ih =>
+    intro cs t ht hlen
+    set n := mp.length with hndef
+    set q := (t.headD 0 * invm) % B with hq
+    have hqlt : q < B := Nat.mod_lt _ B_pos
+    have htake : (t.take n).length = n := by rw [List.length_take]; omega
+    obtain ⟨av, ac, aL, an⟩ := addmul_1_val (t.take n) mp q (Limbs_take ht _) hmp htake hqlt
+    rw [htake] at av an
+    have hsplit := val_take_drop t n (by omega)
+    -- low limb of the addmul result is zero
+    have hr0 : (addmul_1 (t.take n) mp q).1.headD 0 = 0 := by
+      rw [headD_eq_val_mod _ aL]
+      have h1 : val (addmul_1 (t.take n) mp q).1 % B = (val (t.take n) + val mp * q) % B := by
+        rw [← av]
+        have : B ^ n = B * B ^ (n - 1) := by rw [← pow_succ']; congr 1; omega
+        rw [this, Nat.mul_assoc, Nat.add_mul_mod_self_left]
+      rw [h1, Nat.add_mod, ← headD_eq_val_mod _ (Limbs_take ht _), Nat.mul_mod, ← headD_eq_val_mod _ hmp]
+      have hth : (t.take n).headD 0 = t.headD 0 := by
+        cases t with
+        | nil => simp
+        | cons x xs =>
+          have : n = (n - 1) + 1 := by omega
+          rw [this]; simp
+      rw [hth, Nat.mod_mod, Nat.add_mod_mod]
+      exact redc_low_zero _ _ _ hinv
+    generalize hres : addmul_1 (t.take n) mp q = res at *
+    obtain ⟨r, c⟩ := res
+    simp only at av ac aL an hr0
+    have hrt := val_tail r
+    rw [hr0, Nat.zero_add] at hrt
+    -- the next window
+    have ht1L : Limbs (r.tail ++ t.drop n) :=
+      Limbs_append.mpr ⟨fun x hx => aL x (List.mem_of_mem_tail hx), Limbs_drop ht _⟩
+    have ht1n : (r.tail ++ t.drop n).length = n + k := by
+      rw [List.length_append, List.length_tail, List.length_drop, an]; omega
+    obtain ⟨Q', cn', t', hloop, hQ', hcnL, hcnn, ht'L, ht'n, hv⟩ := ih (cs ++ [c]) (r.tail ++ t.drop n) ht1L ht1n
+    refine ⟨q + B * Q', c :: cn', t', ?_, ?_, Limbs_cons.mpr ⟨ac, hcnL⟩, by simp [hcnn], ht'L, ht'n, ?_⟩
+    · rw [redc1Loop]
+      simp only [← hq, hres]
+      rw [hloop, List.append_assoc]; rfl
+    · rw [pow_succ]
+      have : B * Q' + B ≤ B * B ^ k := by
+        have := Nat.mul_le_mul_left B (Nat.succ_le_of_lt hQ')
+        rw [Nat.mul_succ] at this; exact this
+      rw [Nat.mul_comm (B ^ k) B]; omega
+    · rw [val_append, List.length_tail, an] at hv
+      have hpn : B ^ n = B * B ^ (n - 1) := by rw [← pow_succ']; congr 1; omega
+      rw [val_cons, pow_succ]
+      generalize val t' = vt' at *
+      generalize val cn' = vc at *
+      generalize val (t.drop n) = vd at *
+      generalize val (t.take n) = vlo at *
+      generalize val r.tail = vr at *
+      generalize val mp = m at *
+      rw [hpn] at av hsplit hv ⊢
+      generalize B ^ (n - 1) = Pn at *
+      generalize B ^ k = Pk at *
+      rw [hsplit, hrt] at *
+      have h2 : B * (Pn * vd + vr + Q' * m) = B * (Pk * vt' + B * Pn * vc) := by
+        have : vr + Pn * vd + Q' * m = Pk * vt' + B * Pn * vc := hv
+        rw [← this]; ring
+      linarith [h2, av]
+
+
+/-- mpn_redc_1: the exact identity.  `B^n·r + k·B^n·m = T + Q·m` with `Q < B^n` and `k ∈ {0,1}`
+    (`k = 1` iff the final conditional subtraction ran). -/
+theorem redc_1_identity (tp mp : List Nat) (invm : Nat) (hn : 1 ≤ mp.length) (htp : Limbs tp) (hmp : Limbs mp)
+    (hlen : tp.length = 2 * mp.length) (hinv : (invm * mp.headD 0) % B = B - 1) :
+    ∃ Q k, Q < B ^ mp.length ∧ k ≤ 1 ∧
+      B ^ mp.length * val (redc_1 tp mp invm) + k * (B ^ mp.length * val mp) = val tp + Q * val mp ∧
+      Limbs (redc_1 tp mp invm) ∧ (redc_1 tp mp invm).length = mp.length := by
+  obtain ⟨Q, cn, t', hloop, hQ, hcnL, hcnn, ht'L, ht'n, hv⟩ :=
+    redc1Loop_inv mp invm hmp hn hinv mp.length [] tp htp (by omega)
+  have hdef : redc_1 tp mp invm =
+      if (addNC t' cn 0).2 != 0 then (subNC (addNC t' cn 0).1 mp 0).1 else (addNC t' cn 0).1 := by
+    unfold redc_1
+    simp only [hloop, List.nil_append, add_n, sub_n]
+  rw [hdef]
+  obtain ⟨av, ac, aL, an⟩ := addNC_val t' cn 0 ht'L hcnL (by omega) (by omega)
+  rw [ht'n] at av an
+  have hmlt := val_lt mp hmp
+  have htlt := val_lt tp htp
+  rw [hlen] at htlt
+  generalize addNC t' cn 0 = res at *
+  obtain ⟨cp, cy⟩ := res
+  simp only at av ac aL an ⊢
+  set N := B ^ mp.length with hN
+  have hNpos : 0 < N := Nat.pow_pos B_pos
+  have hT : val tp < N * N := by rw [hN, ← pow_add]; have : mp.length + mp.length = 2 * mp.length := by omega
+                                 rw [this]; exact htlt
+  -- S = val t' + val cn < N + m
+  have hS : val t' + val cn < N + val mp := by
+    have h1 : N * (val t' + val cn) < N * (N + val mp) := by
+      have : Q * val mp ≤ N * val mp := Nat.mul_le_mul_right _ (le_of_lt hQ)
+      have e : N * (val t' + val cn) = val tp + Q * val mp := by rw [hv]; ring
+      rw [e, Nat.mul_add]; omega
+    exact Nat.lt_of_mul_lt_mul_left h1
+  by_cases hc : cy = 0
+  · subst hc
+    have hif : ((0 : Nat) != 0) = false := rfl
+    simp only [hif, Bool.false_eq_true, if_false]
+    refine ⟨Q, 0, hQ, by omega, ?_, aL, an⟩
+    have : val cp = val t' + val cn := by omega
+    rw [this, hv]; ring
+  · have hc1 : cy = 1 := by omega
+    subst hc1
+    have hif : ((1 : Nat) != 0) = true := rfl
+    simp only [hif, if_true]
+    obtain ⟨sv, sc, sL, sn⟩ := subNC_val cp mp 0 aL hmp an (by omega)
+    rw [an] at sv sn
+    generalize subNC cp mp 0 = sres at *
+    obtain ⟨out, bw⟩ := sres
+    simp only at sv sc sL sn ⊢
+    have houtlt := val_lt out sL
+    rw [sn] at houtlt
+    -- val cp < m, so the subtraction borrows
+    have hcp : val cp < val mp := by omega
+    have hbw : bw = 1 := by
+      by_contra h
+      have : bw = 0 := by omega
+      subst this
+      omega
+    subst hbw
+    refine ⟨Q, 1, hQ, le_refl _, ?_, sL, sn⟩
+    have e1 : val out + val mp = val t' + val cn := by omega
+    have e2 : N * (val out + val mp) = val tp + Q * val mp := by rw [e1, hv]; ring
+    rw [← e2]; ring
+
+
 /-! ### the even-modulus part of mpz_powm (powm.c:196-268) -/
 
 theorem zeros_length (k : Nat) : (zeros k).length = k := by simp [zeros]
